@@ -205,7 +205,8 @@ def tick (t : Tbl P) (st : ESt P) : Outcome (ESt P) :=
             | .ok none => .panic "trie:leaf-slice-out-of-range"      -- `leaf_data[..8]` on a short slice
             | .ok (some lf) =>
               if oob lf.a (lf.a + lf.b) t.dataLen then .ok st.finish
-              else if st.syls.any (· == 0) then .panic "trie:zero-syllable-unwrap"   -- `Syllable::try_from(0).unwrap()`
+              else if st.syls.any (fun s => !validCode s) then
+                .panic "trie:invalid-syllable-unwrap"   -- `Syllable::try_from(syl_u16).unwrap()`: zero or (since F47) out of range
               else
                 match sliceData t lf.a (lf.a + lf.b) with
                 | .panic s => .panic s
